@@ -40,6 +40,11 @@ func c15Atomizer(c *Ctx, outer *ssa.Function) Atomizer {
 			if x.Type().String() == "bool" && x.Parent() == outer {
 				return "flag:" + x.Name(), true, true
 			}
+		case *ssa.UnOp:
+			// a captured bool of the enclosing function (predicate written as a closure)
+			if fv, isFV := x.X.(*ssa.FreeVar); isFV && x.Op == token.MUL && x.Type().String() == "bool" && fv.Parent() == outer {
+				return "flag:" + fv.Name(), true, true
+			}
 		case *ssa.BinOp:
 			if x.Op != token.EQL && x.Op != token.NEQ {
 				return "", false, false
@@ -60,6 +65,11 @@ func c15Atomizer(c *Ctx, outer *ssa.Function) Atomizer {
 			// peer identity
 			isPeerField := func(v ssa.Value) bool { return isPureLoadOf(v, c15Req+".PeerID") }
 			isPeerParam := func(v ssa.Value) bool {
+				if u, isU := v.(*ssa.UnOp); isU && u.Op == token.MUL {
+					if _, isFV := u.X.(*ssa.FreeVar); isFV {
+						return typeName(u.Type()) == "core.PeerID"
+					}
+				}
 				p, ok := v.(*ssa.Parameter)
 				return ok && typeName(p.Type()) == "core.PeerID"
 			}
@@ -125,9 +135,21 @@ func c15Roles(c *Ctx) (valid, quota *ssa.Function) {
 		}
 		if mc, ok := args[1].(*ssa.MakeClosure); ok {
 			if cf, _ := mc.Fn.(*ssa.Function); cf != nil {
-				for _, ics := range callsIn(cf) {
-					if sf := ics.Instr.Common().StaticCallee(); sf != nil && sf.Pkg == rp.Pkg && sf.Signature.Results().Len() == 1 && sf.Signature.Results().At(0).Type().String() == "bool" {
-						valid = sf
+				scans := func(f *ssa.Function) bool {
+					for _, l := range rangeLoops(f) {
+						if mentionsField(l.Ranged, c15Mgr+".requests") {
+							return true
+						}
+					}
+					return false
+				}
+				if scans(cf) {
+					valid = cf // the predicate is written inline in the function literal
+				} else {
+					for _, ics := range callsIn(cf) {
+						if sf := ics.Instr.Common().StaticCallee(); sf != nil && sf.Pkg == rp.Pkg && sf.Signature.Results().Len() == 1 && sf.Signature.Results().At(0).Type().String() == "bool" && scans(sf) {
+							valid = sf
+						}
 					}
 				}
 			}
@@ -169,6 +191,11 @@ func rulesC15Validity(c *Ctx, r *Report, r4, fReq string) {
 	for _, p := range vr.Params {
 		if p.Type().String() == "bool" {
 			dupFlag = "flag:" + p.Name()
+		}
+	}
+	for _, fv := range vr.FreeVars {
+		if fv.Type().String() == "*bool" {
+			dupFlag = "flag:" + fv.Name()
 		}
 	}
 	if dupFlag == "" {
